@@ -77,3 +77,32 @@ def halflocks(F):
     if len(ts) < 2:
         raise AnchorLost("expected >= 2 instantiations of the half lock (data, fallback), found %s" % sorted(ts))
     return sorted(ts)
+
+
+def action_site(F):
+    """where the dispatcher calls the actions: the workspace function A containing the virtual call on the action type, the block of
+    that call, and the chain of (frame, call block) leading from the dispatcher to A (empty when A is the dispatcher itself).
+    Extracting the loop into a helper must not change any verdict, so rules go through this anchor."""
+    h = handler(F)
+    d = action_dyn(F)
+
+    def sites(m):
+        return [(bb, t) for bb, t in m.calls() if t.get("f") is not None and F.inst[t["f"]].kind == "virtual" and F.inst[t["f"]].dyn == d]
+    found = []
+    seen = {h.id}
+    frontier = [(h, [])]
+    depth = 0
+    while frontier and depth <= 3:
+        nxt = []
+        for m, chain in frontier:
+            for bb, t in sites(m):
+                found.append((m, bb, t, chain))
+            for bb, t in m.calls():
+                if t.get("f") is None:
+                    continue
+                c = F.inst[t["f"]]
+                if c.local and c.body is not None and c.kind != "virtual" and c.id not in seen and c.crate == h.crate:
+                    seen.add(c.id)
+                    nxt.append((c, chain + [(m, bb)]))
+        frontier = nxt; depth += 1
+    return h, found
